@@ -542,39 +542,15 @@ func genC15(gm *GoModel) {
 		}
 		all = append(all, s)
 	}
+	// encoders are straight-line, so both tiers take every type at every version; the tiers
+	// differ in the number of shape profiles
 	selected := map[string]bool{}
-	sampled := map[string]bool{}
-	if thorough {
-		for _, s := range all {
-			selected[s.Name] = true
-		}
-	} else {
-		for _, n := range c16Core {
-			if d := dsl.Structs[n]; d != nil && !d.NoEncoding {
-				selected[n] = true
-			}
-		}
-		for _, n := range []string{"OffsetCommitValue", "TxnMetadataValue", "GroupMetadataValue"} {
-			if d := dsl.Structs[n]; d != nil && !d.NoEncoding {
-				selected[n] = true
-			}
-		}
-		var rest []string
-		for _, s := range all {
-			if !selected[s.Name] {
-				rest = append(rest, s.Name)
-			}
-		}
-		for i := 0; i < envInt("KMSGGEN_SAMPLE", 30) && len(rest) > 0; i++ {
-			k := int(rnd(uint64(100+i)) % uint64(len(rest)))
-			selected[rest[k]] = true
-			sampled[rest[k]] = true
-			rest = append(rest[:k], rest[k+1:]...)
-		}
+	for _, s := range all {
+		selected[s.Name] = true
 	}
 	profiles := []int{0, 1, 3}
 	if thorough {
-		profiles = []int{0, 1, 2, 3, 4, 5, 6}
+		profiles = []int{0, 1, 2, 3, 4, 5, 6, 7, 8, 9, 10}
 	}
 	var ps []string
 	for _, p := range profiles {
